@@ -369,7 +369,7 @@ fn accs_eq(exp: &Value, got: &Value) -> Result<(), String> {
     Ok(())
 }
 
-fn run_rx(c: &Value, explen: u64, acc: &Value) -> Result<(), String> {
+fn run_rx(c: &Value, explen: u64, acc: &Value, split: &[usize]) -> Result<(), String> {
     let (pk, form) = case_packet(c);
     let bytes = mqtt::encode(&pk, form);
     if bytes.len() as u64 != explen {
@@ -387,7 +387,7 @@ fn run_rx(c: &Value, explen: u64, acc: &Value) -> Result<(), String> {
             s.quiet = true;
             s.command(Cmd::Connect(json!({"client_id": "pvh", "auth_method": "m", "auth_data": "d"})));
             s.poll_ctx();
-            s.inject_bytes(&bytes, &[], vec![]);
+            s.inject_bytes(&bytes, split, vec![]);
             let r = s.poll_ctx();
             if let Some(p) = s.panics.first() {
                 return Err(format!("panic: {}", p));
@@ -422,7 +422,7 @@ fn run_rx(c: &Value, explen: u64, acc: &Value) -> Result<(), String> {
                     s.inject_packet(&sa, 9);
                     s.poll_ctx();
                     s.poll_op(1);
-                    s.inject_bytes(&bytes, &[], vec![]);
+                    s.inject_bytes(&bytes, split, vec![]);
                     session::settle(&mut s, &mut rng, false);
                     if let Some(p) = s.panics.first() {
                         return Err(format!("panic: {}", p));
@@ -448,7 +448,7 @@ fn run_rx(c: &Value, explen: u64, acc: &Value) -> Result<(), String> {
                         }
                     }
                     let before = s.wire.raw.len();
-                    s.inject_bytes(&bytes, &[], vec![]);
+                    s.inject_bytes(&bytes, split, vec![]);
                     session::settle(&mut s, &mut rng, false);
                     if let Some(p) = s.panics.first() {
                         return Err(format!("panic: {}", p));
@@ -498,7 +498,7 @@ fn run_rx(c: &Value, explen: u64, acc: &Value) -> Result<(), String> {
                     s.call(1, 0, &spec);
                     s.poll_op(1);
                     s.poll_ctx();
-                    s.inject_bytes(&bytes, &[], vec![]);
+                    s.inject_bytes(&bytes, split, vec![]);
                     session::settle(&mut s, &mut rng, false);
                     if let Some(p) = s.panics.first() {
                         return Err(format!("panic: {}", p));
@@ -516,7 +516,7 @@ fn run_rx(c: &Value, explen: u64, acc: &Value) -> Result<(), String> {
                     s.call(1, 0, &json!({"kind": "ping"}));
                     s.poll_op(1);
                     s.poll_ctx();
-                    s.inject_bytes(&bytes, &[], vec![]);
+                    s.inject_bytes(&bytes, split, vec![]);
                     session::settle(&mut s, &mut rng, false);
                     match s.op_results.get(&1) {
                         Some(r) if r["r"] == "ok" => Ok(()),
@@ -524,7 +524,7 @@ fn run_rx(c: &Value, explen: u64, acc: &Value) -> Result<(), String> {
                     }
                 }
                 mqtt::DISCONNECT => {
-                    s.inject_bytes(&bytes, &[], vec![]);
+                    s.inject_bytes(&bytes, split, vec![]);
                     session::settle(&mut s, &mut rng, false);
                     if let Some(p) = s.panics.first() {
                         return Err(format!("panic: {}", p));
@@ -568,7 +568,15 @@ pub fn wirerx(a: &HashMap<String, String>) -> i32 {
                 continue;
             }
             let c: Value = serde_json::from_str(&line).expect("case");
-            let r = run_rx(&c["c"], c["len"].as_u64().unwrap_or(0), &c["acc"]);
+            // the packet arrives whole, cut inside its fixed header (after 2 bytes: inside a multi-byte remaining length for
+            // bodies of 128 bytes and more), and with its first bytes one per read: what the accessors expose must not depend on it
+            let mut r = Ok(());
+            for split in [&[][..], &[2][..], &[1, 1, 1, 1][..]] {
+                r = run_rx(&c["c"], c["len"].as_u64().unwrap_or(0), &c["acc"], split).map_err(|e| if split.is_empty() { e } else { format!("{} (delivered in reads of {:?} bytes, then the rest)", e, split) });
+                if r.is_err() {
+                    break;
+                }
+            }
             let rec = match r {
                 Ok(()) => json!({"i": idx, "file": name, "t": c["c"]["t"], "ok": true, "len": c["len"], "form": c["c"]["form"], "np": c["c"]["props"].as_array().map(|a| a.len()).unwrap_or(0)}),
                 Err(why) => json!({"i": idx, "file": name, "t": c["c"]["t"], "ok": false, "why": why, "c": c["c"]}),
